@@ -454,6 +454,9 @@ impl Parser {
     ///  scrolling region is bound by the current margins.
     pub(crate) fn set_specific_margin(&mut self, buf: &mut Buffer) -> EngineResult<CallbackAction> {
         self.state = EngineState::Default;
+        if self.parsed_numbers.len() < 2 {
+            return Err(ParserError::UnsupportedEscapeSequence("Set specific margin needs 2 parameters.".to_string()).into());
+        }
         let n = self.parsed_numbers[1] - 1;
 
         match self.parsed_numbers.first() {
